@@ -337,6 +337,12 @@ class AView:
 
     tobytes = tobuf
 
+    def toreadonly(self):
+        return AView(self.base, self.start, self.stop)
+
+    def release(self):
+        pass
+
     def size(self):
         total = self.base.size()
         stop = total if self.stop is None or tb(self.stop > total) else self.stop
